@@ -33,7 +33,7 @@ theorem running_is_most_recent (acts : List Act) (s : St) (h : run init acts = s
 /-- no callback of a group is running exactly when all its started callbacks have finished -/
 theorem idle_group_all_finished (acts : List Act) (s : St) (h : run init acts = some s)
     (hd : (s.accepted.map (·.2)).Nodup) (g : Nat) (hg : g ≠ 0)
-    (hidle : ∀ i w cb, s.workers[i]? = some (.running w cb) → w.wid ≠ g) :
+    (hidle : ∀ (i : Nat) (w : Work) (cb : Nat), s.workers[i]? = some (WState.running w cb) → w.wid ≠ g) :
     ∀ c ∈ cbsOf g s.started, c ∈ s.finished := by
   sorry
 
